@@ -185,7 +185,8 @@ ArithBad(e) ==
      {"C03:" \o e.op \o ":yields-a-non-quantity" : x \in IF e.op \in {"add", "sub"} /\ e.rt = "q" THEN {1} ELSE {}}
   ELSE {"C07:" \o e.op \o ":escaped:" \o e.out : x \in IF e.op \in {"add", "sub"} /\ e.out \in Forbidden THEN {1} ELSE {}}
 
-\* ---- comparisons: e = [op ("eq" | "lt"), l: Q, r: Q, out ("T" | "F" | "NI" | exception class)]
+\* ---- comparisons: e = [op ("eq" | "lt"), l: Q, r: Q, out ("T" | "F" | "NI" | exception class),
+\*                      rev (the same for r op l, "none" when not asked), hq ("T" | "F" | "NA": hash(l) = hash(r))]
 \* -1: l < r physically, 1: l > r, 0: tie or not judged, 2: both exactly zero
 Order(l, r) ==
   IF ~(l.hm /\ r.hm) \/ l.u.sc \/ r.u.sc \/ ~Sized(l.u.t, size, taint) \/ ~Sized(r.u.t, size, taint) THEN 0
@@ -202,4 +203,16 @@ CmpBad(e) ==
              \/ (o = -1 /\ e.op = "lt" /\ e.out = "F") \/ (o = 1 /\ e.op = "lt" /\ e.out = "T")
              \/ (o = 2 /\ ((e.op = "eq" /\ e.out = "F") \/ (e.op = "lt" /\ e.out = "T")))
           THEN {1} ELSE {}}
+  \* the same pair asked the other way round (e.rev: r == l, resp. r < l), and the hashes of the two (e.hq); like the
+  \* clause above this is judged away from ties only: 40 rod < 0.125 mile and 0.125 mile < 40 rod are both True in floats
+  \cup {"C12:cmp:" \o e.op \o ":other-way-round-disagrees-with-physical-order" : x \in
+          IF    (o \in {-1, 1} /\ e.op = "eq" /\ e.rev = "T")
+             \/ (o = -1 /\ e.op = "lt" /\ e.rev = "T") \/ (o = 1 /\ e.op = "lt" /\ e.rev = "F")
+             \/ (o = 2 /\ ((e.op = "eq" /\ e.rev = "F") \/ (e.op = "lt" /\ e.rev = "T")))
+          THEN {1} ELSE {}}
+  \cup {"C12:cmp:eq:equal-in-one-unit-but-hashes-differ" : x \in
+          IF e.op = "eq" /\ e.out = "T" /\ e.hq = "F" /\ e.l.u.k = e.r.u.k THEN {1} ELSE {}}
+  \cup {"C03:cmp:" \o e.op \o ":incommensurable-compared-the-other-way-round" : x \in
+          IF ~same /\ ((e.op = "eq" /\ e.rev = "T") \/ (e.op = "lt" /\ e.rev \in {"T", "F"})) THEN {1} ELSE {}}
+  \cup {"C07:cmp:escaped:" \o e.rev : x \in IF e.rev \in Forbidden THEN {1} ELSE {}}
 =============================================================================
